@@ -207,6 +207,7 @@ def bootstrap():
     if VERIF not in sys.path:
         sys.path.insert(1, VERIF)
     warnings.filterwarnings("ignore")
+    warnings.showwarning = lambda *a, **k: None
     import logging
     logging.disable(logging.CRITICAL)
     import saml2_tophat  # noqa
@@ -224,6 +225,8 @@ def bootstrap():
     import saml2_tophat.cache  # noqa
     import saml2_tophat.population  # noqa
     import saml2_tophat.cert  # noqa
+    warnings.filterwarnings("ignore")
+    warnings.showwarning = lambda *a, **k: None
     return install()
 
 
